@@ -37,10 +37,10 @@ OBJ_ENTRIES = ENTRIES[5:]
 POINTS = ['lazy_required', 'providedBy_descriptor', 'uncached_before', 'uncached_after', 'spec_subscribe',
           'generation_property', 'changed_override', 'changed_before', 'factory']
 ACTIONS = ['register', 'register_other_key', 'unregister', 'subscribe', 'unsubscribe', 'register_base', 'rbases', 'irebase',
-           'cdecl', 'rebuild', 'changed', 'relookup_same', 'relookup_other', 'gc_finalizer', 'raise']
+           'cdecl', 'rebuild', 'changed', 'relookup_same', 'relookup_other', 'gc_finalizer', 'finalizer_lookup', 'raise']
 CACHES = ['cold', 'warm', 'sibling']
 BLOCK = 400
-ENUM_NOTE = ('complete product {registry flavour: 2} x {entry point: 9} x {callback point: 9} x {action: 15} x {cache state: 3} '
+ENUM_NOTE = ('complete product {registry flavour: 2} x {entry point: 9} x {callback point: 9} x {action: 16} x {cache state: 3} '
              'restricted to the combinations in which the entry point can reach the callback point; thread schedules are sampled')
 
 
@@ -98,7 +98,7 @@ def generate(seed, mode):
     pre = [{'m': o.choice(['reg', 'sub', 'regbase']), 'req': [o.randrange(3) for _ in range(o.choice([1, 1, 2]))], 'n': o.randrange(2),
             'v': o.randrange(4), 'p': o.choice([0, 0, 1, 2])} for _ in range(o.randint(0, 5))]
     if not lookup_only:
-        threads.append({'kind': 'mutator', 'ops': [{'m': o.choice(['reg', 'reg', 'unreg', 'sub', 'unsub', 'regbase', 'rbases', 'irebase', 'cdecl']),
+        threads.append({'kind': 'mutator', 'ops': [{'m': o.choice(['reg', 'reg', 'unreg', 'sub', 'unsub', 'regbase', 'rbases', 'irebase', 'cdecl', 'rebuild']),
                                                     'req': [o.randrange(3) for _ in range(o.choice([1, 1, 2]))], 'n': o.randrange(2),
                                                     'v': o.randrange(4), 'p': o.choice([0, 1, 1, 2, 2])} for _ in range(o.randint(1, 5))]})
     if not lookup_only and h64(seed, 'extendors-pattern') % 6 == 0:
@@ -365,6 +365,25 @@ def execute_reenter(program, ctx, mode):
                 del a
                 gc.collect()
                 ctx.fault('gc-inside-callback')
+                return
+            elif action == 'finalizer_lookup':
+                # a registered value whose only remaining owner is the lookup cache: it dies *while* the caches are being
+                # dropped, and its finalizer looks things up in the very registry (cache-missing lookups that store)
+                class Dying:
+                    def __call__(self_, *objs):
+                        return None
+
+                    def __del__(self_):
+                        S.lookup((R2,), P0, 'fd2')
+                        S.lookupAll((R2,), P0)
+                        S.subscriptions((R2,), P0)
+                        ctx.fault('finalizer-looked-up-while-caches-were-dropped')
+                d_ = Dying()
+                S.register((R2,), P0, 'fd', d_)
+                S.lookup((R2,), P0, 'fd')
+                S.lookupAll((R2,), P0)
+                del d_
+                S.unregister((R2,), P0, 'fd')
                 return
             elif action == 'raise':
                 raise Injected('from ' + point)
@@ -895,6 +914,10 @@ def execute_threads(program, ctx, mode):
             if real:
                 gc.collect()
                 ctx.fault('gc-in-mutator-thread')
+        elif k == 'rebuild':
+            # content stays the same, but the registry is emptied and refilled step by step: a lookup that overlaps it may see
+            # an intermediate state (not judged); what must hold is that nothing it computed meanwhile survives
+            Sx.rebuild()
         elif k == 'irebase' and real:
             R1.__bases__ = (Interface,) if R1.__bases__ == (R0,) else (R0,)
         elif k == 'cdecl' and real:
@@ -1014,7 +1037,7 @@ def execute_threads(program, ctx, mode):
     if sched.errors:
         raise RuntimeError('thread body failed: %r' % (sched.errors[:1],))
     lookup_only = not any(k == 'mutator' for k in kinds)
-    spec_muts = any(m['m'] in ('irebase', 'cdecl') for (_i, _r, m, _e) in mut_records)
+    spec_muts = any(m['m'] in ('irebase', 'cdecl', 'rebuild') for (_i, _r, m, _e) in mut_records)
     cfg = 'lookup-only' if lookup_only else 'with-mutator'
     # 1. exceptions seen by lookup threads
     for tid, inv, ret, key, r, exc in look_records:
